@@ -71,6 +71,9 @@ func window(content []byte) []byte {
 func ParseFrame(s []byte, strict bool) FrameResult {
 	i := 0
 	for {
+		if i == len(s) {
+			return FrameResult{Status: "empty", Consumed: len(s)}
+		}
 		if !has(s, i, 4) {
 			return FrameResult{Status: "truncated", Consumed: len(s)}
 		}
@@ -206,6 +209,10 @@ func legacyBlocks(s []byte, i int) FrameResult {
 		if is4(s, i, legacyMagic) {
 			i += 4
 			continue
+		}
+		if !topBit(s, i) && low31(s, i) == len(r.Content) {
+			// kernel-style trailer: the total uncompressed size
+			return done("ok", i+4)
 		}
 		size := low31(s, i)
 		if topBit(s, i) || size > CompressBound(legacyBlock) {
